@@ -276,12 +276,21 @@ pub fn run_a(ctx: &Ctx) -> Coverage {
 }
 
 pub fn run(ctx: &Ctx) -> Coverage {
+    if std::env::var("VERIF_SHARD").is_ok() {
+        // shard child: only the SIM part is sharded
+        super::c15b::run(ctx);
+        unreachable!();
+    }
     let mut cov = Coverage::aggregate();
     cov.absorb("a-frame-decoder", run_a(ctx));
+    cov.absorb("b-live-connection", super::c15b::run(ctx));
     cov
 }
 
 pub fn replay(ctx: &Ctx, case: &Value) -> Coverage {
+    if case["part"] == "b" {
+        return super::c15b::replay_case(ctx, case);
+    }
     let len = case["declared_len"].as_u64().unwrap_or(0) as u32;
     let mut input = vec![(len >> 16) as u8, (len >> 8) as u8, len as u8, case["type"].as_u64().unwrap_or(0) as u8, case["flags"].as_u64().unwrap_or(0) as u8];
     input.extend_from_slice(&(case["stream_id"].as_u64().unwrap_or(0) as u32).to_be_bytes());
